@@ -41,6 +41,54 @@ class JasmRaised(Exception):
         self.where = where
 
 
+class OperationDeadline(BaseException):
+    """One compile or match call of the real code did not return within CALL_DEADLINE_S (BaseException: the code under
+    test must not be able to swallow it)."""
+
+
+# One call of the real code is bounded in time and the worker in memory, so that a change that makes JASM loop or
+# allocate without bound ends as a verdict for the input at hand instead of a hung or killed exploration.
+# JASM's own regex timeout is 60 s; the deadline is far above anything the unchanged code needs (< 1 s per call).
+CALL_DEADLINE_S = float(os.environ.get("VERIF_CALL_DEADLINE_S", "240"))
+SHARD_DEADLINE_S = float(os.environ.get("VERIF_SHARD_DEADLINE_S", "1800"))    # quick; thorough: x6
+WORKER_MEM_GB = float(os.environ.get("VERIF_WORKER_MEM_GB", "3"))
+
+
+def _on_alarm(signum, frame):
+    raise OperationDeadline(f"no result after {CALL_DEADLINE_S:.0f} s")
+
+
+class deadline:
+    """with deadline(): <call into the real code>  -- SIGALRM based, main thread of the worker only"""
+    _installed = False
+
+    def __enter__(self):
+        import signal
+        import threading
+        self.on = threading.current_thread() is threading.main_thread()
+        if self.on:
+            if not deadline._installed:
+                signal.signal(signal.SIGALRM, _on_alarm)
+                deadline._installed = True
+            signal.setitimer(signal.ITIMER_REAL, CALL_DEADLINE_S)
+        return self
+
+    def __exit__(self, *a):
+        if self.on:
+            import signal
+            signal.setitimer(signal.ITIMER_REAL, 0)
+        return False
+
+
+def limit_worker_memory():
+    import resource
+    lim = int(WORKER_MEM_GB * (1 << 30))
+    try:
+        resource.setrlimit(resource.RLIMIT_AS, (lim, lim))
+    except (ValueError, OSError):
+        pass
+
+
 # ----------------------------------------------------------------------------- scratch
 
 def scratch_root() -> str:
@@ -210,8 +258,9 @@ class Harness:
             macros=macros,
         )
         try:
-            return self.MasterOfPuppets(cfg)
-        except Exception as e:  # noqa: callers that expect compile errors catch Exception; elsewhere this becomes a verdict, not a harness error
+            with deadline():
+                return self.MasterOfPuppets(cfg)
+        except (Exception, OperationDeadline) as e:  # noqa: callers that expect compile errors catch Exception; elsewhere this becomes a verdict, not a harness error
             raise JasmRaised(e, {"rule_file": path, "stage": "compile", "macros": macros}) from e
 
     def match(self, mop, input_file: str, *, ret="list", mode="all", only_addr=False):
@@ -223,8 +272,9 @@ class Harness:
         c.matching_mode = gd.MatchingSearchMode.all_finds if mode == "all" else gd.MatchingSearchMode.first_find
         c.return_only_address = only_addr
         try:
-            return mop.perform_matching()
-        except Exception as e:  # noqa
+            with deadline():
+                return mop.perform_matching()
+        except (Exception, OperationDeadline) as e:  # noqa
             raise JasmRaised(e, {"input_file": input_file, "ret": ret, "mode": mode, "only_addr": only_addr,
                                  "rule_file": c.pattern_pathstr}) from e
 
@@ -339,12 +389,83 @@ def run_sharded(check_mod: str, shards: list, tier: str, known_keys: set, nproc:
                 results.append(_worker_entry(j))
             _WORKER.pop("h", None)
             return results
-        ctx = multiprocessing.get_context("fork")
-        with ctx.Pool(nproc) as pool:
-            for r in pool.imap_unordered(_worker_entry, jobs, chunksize=1):
-                results.append(r)
-            pool.close()
-            pool.join()
-        return results
+        return _run_pool(jobs, nproc)
     finally:
         shutil.rmtree(root, ignore_errors=True)
+
+
+def _pool_worker(conn):
+    limit_worker_memory()
+    while True:
+        try:
+            job = conn.recv()
+        except EOFError:
+            return
+        if job is None:
+            return
+        try:
+            conn.send(_worker_entry(job))
+        except MemoryError:
+            r = ShardResult()
+            r.fail({"clause": "no-result", "family": "worker", "shard": job[1], "expected": "the shard completes",
+                    "observed": f"MemoryError under the {WORKER_MEM_GB:g} GB worker limit", "size": 0}, job[3])
+            conn.send(r)
+
+
+def _run_pool(jobs, nproc):
+    """Persistent fork workers fed one shard at a time.  A worker that dies (killed, hard crash of the code under test)
+    does not hang the run: its shard is reported as a 'no-result' failure and a fresh worker takes its place."""
+    from multiprocessing.connection import wait
+    ctx = multiprocessing.get_context("fork")
+    pending = list(reversed(jobs))
+    results, workers = [], {}          # conn -> (process, current job)
+
+    def spawn():
+        a, b = ctx.Pipe()
+        p = ctx.Process(target=_pool_worker, args=(b,), daemon=True)
+        p.start()
+        b.close()
+        return a, p
+
+    def feed(conn, p):
+        if pending:
+            job = pending.pop()
+            conn.send(job)
+            workers[conn] = (p, job, time.time())
+        else:
+            try:
+                conn.send(None)
+            except OSError:
+                pass
+            workers.pop(conn, None)
+            conn.close()
+
+    for _ in range(min(nproc, len(jobs))):
+        feed(*spawn())
+    def lost(conn, why):
+        p, job, _ = workers.pop(conn)
+        r = ShardResult()
+        r.fail({"clause": "no-result", "family": "worker", "shard": job[1], "expected": "the shard completes", "observed": why(p), "size": 0}, job[3])
+        results.append(r)
+        conn.close()
+        feed(*spawn())
+
+    while workers:
+        ready = wait(list(workers), timeout=20)
+        for conn in ready:
+            p, job, _ = workers[conn]
+            try:
+                results.append(conn.recv())
+            except (EOFError, OSError):
+                p.join(5)
+                lost(conn, lambda p: f"worker process died (exit code {p.exitcode}) while the real code ran this shard")
+                continue
+            feed(conn, p)
+        now = time.time()
+        for conn, (p, job, t0) in list(workers.items()):
+            limit = SHARD_DEADLINE_S * (1 if job[2] == "quick" else 6)
+            if conn not in ready and now - t0 > limit:      # calls outside Harness.mop/match have no deadline of their own
+                p.kill()
+                p.join(5)
+                lost(conn, lambda p: f"no result after {limit:.0f} s (worker killed)")
+    return results
